@@ -80,6 +80,11 @@ def nativeOf (raced : List Nat) (s : State) (e : Ev) (s' : State) : List String 
     | none => []
   | .current t => lib t
   | .exit t _ => lib t
+  | .tlsFail _ _ _ => ["kcfail"]
+  | .currentFail _ =>     -- the read-back `p_uthread_get_local` reaches `pthread_getspecific` only if it could make the native key
+    match (s.key 0).published with
+    | some n => ["gs" ++ sh n]
+    | none => []
   | _ => []
 
 inductive Res
@@ -136,6 +141,7 @@ def fmtR (kind : String) (ret : List Int) : String :=
   | "noexit", _ => "noexit"
   | "blocked", _ => "blocked"
   | "null", _ => "NULL"
+  | "ok", _ => "ok"
   | "none", [] => "-"
   | _, _ => "?"
 
@@ -161,7 +167,8 @@ def tlsOp (what : String) (t : Nat) (k : Nat) (v : Nat) : Option Ev :=
 
 /-- options of `create`: `n` / `n<LEN>` (name), `x` (child runs into the proxy while the creator is inside
     `p_uthread_create_full`), `p<0-7>` / `s<KB>` (`p_uthread_create_full`), `eperm` (first native create fails, the library
-    retries), `eagain` (native create fails: NULL).  `none` = malformed. -/
+    retries), `eagain` / `fail:attr` / `fail:detach` (`pthread_create` / `pthread_attr_init` / `pthread_attr_setdetachstate`
+    fails: NULL).  `none` = malformed. -/
 structure COpts where
   named : Bool := false
   early : Bool := false
@@ -179,7 +186,7 @@ def parseCOpts : List String → COpts → Option COpts
   | x :: r, o =>
     if x = "n" then parseCOpts r { o with named := true }
     else if x = "x" then parseCOpts r { o with early := true, modes := o.modes + 1 }
-    else if x = "eagain" then parseCOpts r { o with fail := true, modes := o.modes + 1 }
+    else if x = "eagain" ∨ x = "fail:attr" ∨ x = "fail:detach" then parseCOpts r { o with fail := true, modes := o.modes + 1 }
     else if x = "eperm" then parseCOpts r { o with modes := o.modes + 1 }
     else if x.startsWith "n" ∧ digitsOk x 4 ∧ numOf x ≤ 1000 then parseCOpts r { o with named := true }
     else if x.startsWith "p" ∧ digitsOk x 4 ∧ numOf x ≤ 7 then parseCOpts r o
@@ -261,8 +268,9 @@ def step (s : St) (toks : List String) : IO (St × Bool) := do
         | some o =>
           let j := jd ≠ "d"
           if o.fail then
-            -- `pthread_create` fails: the block is freed again, the spinlock released, NULL: no event of the machine
-            if ¬ canAct m a ∨ m.spin.isSome then bad else idle "null"
+            -- `pthread_attr_init` / `pthread_attr_setdetachstate` / `pthread_create` fails: the block is freed again, the
+            -- spinlock released, NULL (`createFail`: the block takes a handle id and shows up in `F=`)
+            fin [.createFail a] "null"
           else if o.early then
             -- the child passes `p_uthread_set_local (library key)` and reaches the spinlock inside the creator's critical section
             let t := m.nT
@@ -281,7 +289,26 @@ def step (s : St) (toks : List String) : IO (St × Bool) := do
         match k.toNat? with
         | some k => fin (needKey m a k ++ [.getLocal a k]) "value"
         | _ => bad
+      | ["set", k, v, "fail"] =>
+        -- the lazy `pthread_key_create` fails: nothing is stored, no notifier
+        match k.toNat?, v.toNat? with
+        | some k, some _ => if (m.key k).wrapperFreed then bad else fin [.tlsFail a k false] "none"
+        | _, _ => bad
+      | ["replace", k, v, "fail"] =>
+        match k.toNat?, v.toNat? with
+        | some k, some _ => if (m.key k).wrapperFreed then bad else fin [.tlsFail a k false] "none"
+        | _, _ => bad
+      | ["get", k, "fail"] =>
+        match k.toNat? with
+        | some k => if (m.key k).wrapperFreed then bad else fin [.tlsFail a k true] "value"
+        | _ => bad
       | ["current"] => fin (needKey m a 0 ++ [.current a]) "current"
+      | ["current", f] =>
+        -- `p_uthread_current` with the next 2 / 3 `pthread_key_create` calls failing: the fresh handle cannot be stored (NULL);
+        -- with 2 the read-back's own attempt makes the native key
+        if (f ≠ "fail2" ∧ f ≠ "fail3") ∨ (m.key 0).published.isSome ∨ (m.key 0).wrapperFreed ∨ s.pend.any (·.k = 0) then bad
+        else if f = "fail2" then fin [.keyCreate a 0, .keyCas a 0, .currentFail a] "null" (status := "kcfail,kcfail")
+        else fin [.currentFail a] "null" (status := "kcfail,kcfail,kcfail")
       | ["exit", c] =>
         match c.toInt? with
         | some c =>
@@ -305,6 +332,11 @@ def step (s : St) (toks : List String) : IO (St × Bool) := do
       | ["join", h] =>
         match h.toNat? with
         | some h => if s.joining.any (·.2 = h) then bad else fin [.join a h] "value"
+        | none => bad
+      | ["join", h, "fail"] =>
+        -- the native `pthread_join` reports an error: the call comes back at once with the code recorded so far
+        match h.toNat? with
+        | some h => if s.joining.any (·.2 = h) then bad else fin [.joinFail a h] "value"
         | none => bad
       | ["jbegin", h] =>
         -- `p_uthread_join` issued while the target has not ended: the call blocks (the machine's `join` is not enabled)
@@ -333,6 +365,9 @@ def step (s : St) (toks : List String) : IO (St × Bool) := do
              ∨ (m.thr x.thread).phase = .ended then bad
           else idle "none"
         | _, _ => bad
+      | ["misc"] =>
+        -- `p_uthread_ideal_count` (≥ 1) / `p_uthread_yield` / `p_uthread_current_id`: no handle, reference or TLS state is involved
+        if ¬ canAct m a then bad else idle "ok"
       | ["keynew", n] =>
         if n ≠ "n" ∧ n ≠ "x" then bad else fin [.localNew a (n = "n")] "keynew"
       | ["keyfree", k] =>
